@@ -19,6 +19,43 @@ def gen_table(workdir):
         f.write('/* generated from %s PREFIX_FACTORS (%d entries) */\n#define PREFIX_TABLE_ENTRIES %d\nstatic const double PREFIX_TABLE[21] = {%s};\n' %
                 (UC, len(pairs), len(pairs) - len(unknown) if not unknown else -1, ', '.join(vals)))
 UNITS = {'getSIScaling': dict(file=UC, locator=r'double\s+getSIScaling\s*\(', classes=['nstring', 'prefix_map'], globals={'PREFIX_FACTORS': 'prefix_map'}, calls={'pow': 'nix_powi'})}
+def try_catch_all(ctx, toks):
+    """try { S } catch (...) { throw nix::E(args); }  ->  { S } NIX_CATCH_ALL_RETHROW(E);   (S calls a callee that is NOT marked may-throw in this unit: the macro is the catch-all);
+       std::vector<std::string> of this unit is vec_nstr (its elements are read)"""
+    from cxx2c import Tok, P, seq_at, match_close, tokenize, fire
+    for t in toks:
+        if t.k == 'id' and t.t == 'vec_string': t.t = 'vec_nstr'
+    out = []; i = 0
+    while i < len(toks):
+        t = toks[i]
+        if t.t == 'try' and toks[i + 1].t == '{':
+            e = match_close(toks, i + 1)
+            if not seq_at(toks, e + 1, ['catch', '(', '...', ')', '{', 'throw']) and not seq_at(toks, e + 1, ['catch', '(', '.', '.', '.', ')', '{', 'throw']):
+                raise ExtractError('try block without a catch-all that rethrows')
+            j = e + 1
+            while toks[j].t != 'throw': j += 1
+            k = j + 1
+            while toks[k].t in ('nix', '::', 'std'): k += 1
+            exc = toks[k].t
+            c = j
+            while toks[c].t != '{': c -= 1
+            ce = match_close(toks, c)
+            out.extend(toks[i + 1:e + 1]); out.extend(tokenize(' NIX_CATCH_ALL_RETHROW(%s);' % exc)); i = ce + 1; fire(ctx, 'try-catch-all-rethrow'); continue
+        out.append(t); i += 1
+    return out
+def unit_elements(ctx, toks):
+    """units[i] != "none"  ->  nstring_ne_cstr(&units->data[i], "none");  units[i] as a const std::string& argument -> &units->data[i]"""
+    from cxx2c import Tok, P, seq_at, tokenize, fire
+    out = []; i = 0
+    while i < len(toks):
+        if seq_at(toks, i, ['units', '->', 'data', '[', 'i', ']', '!=']) and toks[i + 7].k == 'str':
+            out.extend(tokenize('%snstring_ne_cstr(&units->data[i], %s)' % (toks[i].ws, toks[i + 7].t))); i += 8; fire(ctx, 'element-compare-literal'); continue
+        if seq_at(toks, i, ['units', '->', 'data', '[', 'i', ']']) and out and out[-1].t == '(' and len(out) > 1 and out[-2].t == 'getSIScaling_caught':
+            out.append(P('&', toks[i].ws)); toks[i].ws = ''; fire(ctx, 'element-address')
+        out.append(toks[i]); i += 1
+    return out
+from cxx2c import ExtractError
+UNITS['scalePositions'] = dict(file='src/util/dataAccess.cpp', locator=r'void\s+scalePositions\s*\(', classes=['nstring'], pre_rules=[try_catch_all], post_rules=[unit_elements], calls={'getSIScaling': 'getSIScaling_caught'}, subst={'vec_string': 'vec_nstr'})
 EXTRA = 'prefix_map PREFIX_FACTORS; bool gh_scalable; int gh_org_prefix, gh_dest_prefix, gh_org_power, gh_dest_power;\n'
 JOBS = [dict(name='getSIScaling[power=%d,org0=%d,dest0=%d]' % (pw, o0, d0), bodies=['getSIScaling'], enforce=['getSIScaling'], replace=[], extra_c=EXTRA,
              defines=['C18_POWER=(%d)' % pw, 'C18_ORG0=%d' % o0, 'C18_DEST0=%d' % d0], expect_kinds=['postcondition'], timeout=900)
@@ -27,7 +64,10 @@ JOBS = [dict(name='getSIScaling[power=%d,org0=%d,dest0=%d]' % (pw, o0, d0), bodi
 
         dict(name='lemma_c18_table', lemma='c18_table.c', entry='lemma_c18_table', enforce=[], replace=[], extra_c=EXTRA, covers=['COVER-reached'],
              cbmc_flags=['--unwind', '23', '--unwinding-assertions'], expect_kinds=['assertion'], timeout=300)]
-SPEC = dict(contracts=['c18_units.h'], stubs=[], units=UNITS, jobs=JOBS, pre_hook=gen_table,
+JOBS.append(dict(name='scalePositions[bounded]', bodies=['scalePositions'], enforce=['scalePositions'], replace=[], includes=['c18_scale.h'],
+                 extra_c='int gh_bad[SC_MAX]; int gh_dim_unit_id; size_t gh_sc_calls;\n', cbmc_flags=['--unwind', '4', '--unwinding-assertions'], expect_kinds=['postcondition', 'unwind'], timeout=900,
+                 bounded='at most 2 positions; the loop writes the result arrays and is unwound completely'))
+SPEC = dict(contracts=['c18_units.h', 'c18_scale.h'], stubs=[], units=UNITS, jobs=JOBS, pre_hook=gen_table,
             trusted_base=['CBMC 6.11.0 (C front end, --dfcc, SAT back end)', 'vlib/cxx2c.py idiom map; the PREFIX_FACTORS initialiser is turned into a C array by vlib/props/c18.py',
                           'std::string abstracted to an integer id; std::map::at = table lookup; pow for integer exponents -3..3 = repeated multiplication (libm rounding not modelled)',
                           'splitUnit / isScalable / isSIUnit (boost::regex grammar) are ghost inputs'],
